@@ -316,6 +316,22 @@ def ctor_cases(res):
             res.evaluations += 1
             if len(b) != 8 or b.as_integer != v or b.error != (cls is frame.BackwardFrameError):
                 res.violation("C05/ctor/backward", "backward frame wrong", {"v": v, "cls": cls.__name__})
+    # two frames built from the same arguments are two frames: writing to one leaves the other alone, and building the
+    # value again does not touch frames that already exist
+    for v in (0, 5, 0x80, 255):
+        for mk in (lambda: frame.Frame(8, v), lambda: frame.ForwardFrame(8, v), lambda: frame.BackwardFrame(v),
+                   lambda: frame.BackwardFrameError(v), lambda: frame.Frame(8, [v]), lambda: frame.BackwardFrame(v)):
+            a, b = mk(), mk()
+            res.evaluations += 1
+            res.add("aliasing_checked")
+            a[7] = not a[7]
+            a[2:1] = (a[2:1] + 1) % 4
+            changed = a.as_integer
+            c = mk()
+            if a is b or b.as_integer != v or c.as_integer != v or a.as_integer != changed:
+                res.violation("C05/aliasing", f"{type(a).__name__}(8 bits, {v:#x}) built twice: after writing to the first, the second "
+                              f"reads {b.as_integer:#x}, a third reads {c.as_integer:#x}, the first {a.as_integer:#x} (written {changed:#x})",
+                              {"cls": type(a).__name__, "v": v})
     # equality is width + bits, whatever class carries them; == and != always disagree
     for v in range(256):
         objs = [frame.Frame(8, v), frame.ForwardFrame(8, v), frame.BackwardFrame(v), frame.BackwardFrameError(v)]
